@@ -43,20 +43,18 @@ pub const SWEEP_UNIONS: [&str; 6] = [
 ];
 
 fn case_strategy() -> impl Strategy<Value = Case> {
-    base_day()
-        .prop_flat_map(|b| {
-            (
-                any_cal_around(b, 45),
-                prop_oneof![3 => -15i64..=15, 1 => -50i64..=50],
-                0u8..5,
-                any::<bool>(),
-            )
-                .prop_map(move |(cal, off, modifier, settlement)| Case {
-                    cal,
-                    day: b + off,
-                    modifier,
-                    settlement,
-                })
+    (
+        base_day(),
+        any_cal_rel(45),
+        prop_oneof![3 => -15i64..=15, 1 => -50i64..=50],
+        0u8..5,
+        any::<bool>(),
+    )
+        .prop_map(|(b, cal, off, modifier, settlement)| Case {
+            cal: cal.shift(b),
+            day: b + off,
+            modifier,
+            settlement,
         })
 }
 
